@@ -301,7 +301,7 @@ def _json_safe(o: Any) -> Any:
 
 
 def write_replay(prop: str, v: dict, tier: str) -> str:
-    d = os.path.join(VERIF, "replays", prop)
+    d = os.path.join(VERIF, "replays", "tmp" if os.environ.get("VERIF_NO_EVIDENCE") else "", prop)
     os.makedirs(d, exist_ok=True)
     body = {"property": prop, "clause": v["clause"], "key": v["key"], "detail": v["detail"],
             "params_repr": repr(v.get("params")), "choices": v.get("choices"),
@@ -415,11 +415,12 @@ def main_check(modname: str, tier: str, seed: int, jobs: int, budget_s: float) -
         print(f"VIOLATION property={prop} replay={path}")
         print(f"  clause={clause} key={key}\n  detail={v['detail'][:300]}")
         rc = 1
-    path = write_evidence(mod, tier, seed, total, len(unknown), sorted(hits))
-    err = validate_evidence(path)
-    if err:
-        print(f"HARNESS-ERROR property={prop}: evidence does not validate: {err}")
-        return 2
+    if not os.environ.get("VERIF_NO_EVIDENCE"):  # runs against scratch copies never touch the evidence
+        path = write_evidence(mod, tier, seed, total, len(unknown), sorted(hits))
+        err = validate_evidence(path)
+        if err:
+            print(f"HARNESS-ERROR property={prop}: evidence does not validate: {err}")
+            return 2
     cap = " (capped: budget hit)" if total["capped"] else ""
     print(f"{prop} {tier}: scenarios={total['items']} executions={total['executions']} "
           f"distinct_outcomes={len(total['digests'])} nontrivial={len(total['nontrivial'])} "
